@@ -227,6 +227,33 @@ def apply_clauses(src, clauses):
             bare = name.split(":")[0]
             edits.append((p, p, f"let {name} = "))
             edits.append((toks[k].start, toks[k].start, ";\n" + c["text"].rstrip() + f"\n{bare}\n"))
+        elif op == "before_tail":
+            # in front of the function body's tail expression (anchor-free: statements are delimited by `;` at body depth
+            # or by the closing brace of a block-like statement that is not continued)
+            if body < 0:
+                raise LostAnchor("before_tail: no body")
+            d = toks[body].depth + 1
+            end = toks[body].mate
+            k = body + 1
+            start = k
+            stmt0 = k
+            blockkw = ("if", "match", "while", "for", "loop", "unsafe", "{", "proof")
+            while k < end:
+                t = toks[k]
+                if t.text == ";" and t.depth == d:
+                    start = k + 1
+                    stmt0 = k + 1
+                elif t.kind == "open":
+                    j = t.mate
+                    if t.text == "{" and toks[stmt0].text in blockkw and j + 1 < end \
+                            and toks[j + 1].text not in ("else", ".", "?", "as", "+", "-", "*", "/", "==", "!=", "&&", "||", "<", ">", "<=", ">="):
+                        start = j + 1
+                        stmt0 = j + 1
+                    k = j
+                k += 1
+            if start >= end:
+                raise LostAnchor("before_tail: the body has no tail expression")
+            edits.append((toks[start].start, toks[start].start, "\n" + c["text"].rstrip() + "\n"))
         elif op == "attr":
             edits.append((0, 0, c["text"].rstrip() + "\n"))
         elif op == "abstract":
